@@ -3,6 +3,7 @@
 package vm
 
 import (
+	"bytes"
 	"context"
 
 	"github.com/risor-io/risor/builtins"
@@ -31,6 +32,14 @@ var c17Progs = []string{
 	`mk := func() { func walk(k) { if k == 0 { return a }; return walk(k - 1) + 1 }; return walk }; mk()(3)`,
 	`f := func(x, y=7, z="", w=false, v=0) { return x + y + v }; f(a) + f(a, b)`,
 	`s := 0; for i := 0; i < 3; i++ { if i == 1 { continue }; s += i }; g := func() { }; g(); s + a`,
+	// constants at the edges of their types
+	`big := 9007199254740993; (big % 2) + a`,
+	`mx := 9223372036854775807; mn := -9223372036854775807; f := func(p=1234567890123456789) { return p % 10 }; (mx % 7) + (mn % 7) + f() + a`,
+	`fl := 0.1; g := 3.0; h := 1000000000000000000000.0; (fl < g && g < h) ? a : b`,
+	`s := "tab\there \"quoted\" \\ done"; len(s) + a`,
+	// sibling functions in one scope, and siblings nested in a function
+	`func one(p) { return p + 1 }; func two(p) { return p * 2 }; func three(p) { return p - 3 }; one(a) + two(b) + three(a)`,
+	`mk := func() { inc := func(p) { return p + 1 }; dbl := func(p) { return p * 2 }; return [inc, dbl] }; fs := mk(); fs[0](a) + fs[1](b)`,
 }
 
 func c17SameCode(x, y *compiler.Code, depth int) bool {
@@ -149,6 +158,17 @@ func HarnessC17MarshalRoundTrip() {
 	}
 	verifrt.Reach("reloaded")
 	verifrt.Assert(c17SameCode(code, loaded, 0), "reloaded-code-has-the-same-structure")
+	// marshalling the reloaded code reproduces the same bytes
+	data2, err2 := compiler.MarshalCode(loaded)
+	verifrt.Assert(err2 == nil && bytes.Equal(data, data2), "marshalling-the-reloaded-code-reproduces-the-same-bytes")
+	// the code objects come in the same order
+	fl1, fl2 := code.Flatten(), loaded.Flatten()
+	verifrt.Assert(len(fl1) == len(fl2), "same-number-of-code-objects")
+	if len(fl1) == len(fl2) {
+		for i := range fl1 {
+			verifrt.Assert(fl1[i].FunctionID() == fl2[i].FunctionID() && fl1[i].CodeName() == fl2[i].CodeName(), "code-objects-in-the-same-order")
+		}
+	}
 	o1 := c17Run(code, globals)
 	o2 := c17Run(loaded, globals)
 	verifrt.Assert(o1.err == o2.err, "same-error-outcome")
